@@ -50,7 +50,9 @@ def parts(url):
 
 
 def host_units(labels, suffix_aware):
-    """host as the sequence of hierarchical units, most significant first"""
+    """host as the sequence of hierarchical units, most significant first (a fully qualified name starts with its root label)"""
+    if labels and labels[-1] == "" and len(labels) > 1:
+        return [""] + host_units(labels[:-1], suffix_aware)
     if suffix_aware:
         labels = [l.lower() for l in labels]
         n = psl().suffix_length(labels)
@@ -124,7 +126,7 @@ HOSTS_Q = ["fr.lemonde.fr", "co.uk.bbc.co.uk", "com.evil.com", "lemonde.fr", "ww
            # an inner label that begins with the text of the suffix; an all-digit leftmost label
            "company.com", "shop.company.com", "1.bp.evil.com", "bp.evil.com", "my_site.bbc.co.uk", "uk.evil.com",
            # fully qualified spellings (root label): a different host string than the unrooted one
-           "bbc.co.uk.", "news.bbc.co.uk."]
+           "bbc.co.uk.", "news.bbc.co.uk.", "co.uk.", "uk."]
 HOSTS_T = HOSTS_Q + ["b.a.x.kawasaki.jp", "a.city.kawasaki.jp", "jp", "com", "xlemonde.fr", "lemonde.frx", "monde.fr",
                      "a.foo.unknowntld", "blogspot.com", "me.blogspot.com", "LeMonde.FR",
                      "shop.com", "news.co.uk.bbc.co.uk", "2.cdn.bbc.co.uk", "cdn.bbc.co.uk", "0.evil.com"]
